@@ -470,7 +470,7 @@ pub mod verif_c01 {
                 position_is_client: false,
                 incremental_mode: false,
                 incremental_peer_count: 0,
-            pending_table_size_min: None,
+                pending_table_size_min: None,
                 pending_table_size_update: None,
                 size_update_emitted: false,
                 pending_oversized_abort: false,
